@@ -66,7 +66,13 @@ def check_binding(ctx, lib, rid_prefix, methods, name_of, self_names, expected_r
     """methods: dict binding-method-name -> Body; name_of(core_setter) -> binding method name."""
     api = common.spec("api")
     core = common.setter_effects(lib)
-    m = ccp.Machine([lib])
+    files = {b.file for b in methods.values()}
+
+    def inl(n):
+        # private helpers of the binding module are part of the setter's body
+        x = lib.body(n)
+        return x is not None and not x.is_pub and x.file in files and x.kind in ("fn", "assoc_fn") and not x.impl_trait
+    m = ccp.Machine([lib], inline=inl)
     n_ok = 0
     for setter, sp in api["setters"].items():
         if sp.get("cli_only"):
